@@ -295,24 +295,38 @@ def GeoMeets : GeoQuery → Prop
   | .mp .other => False
   | .empty => False
 
-/-- `IntersectsFeature.Matches` (repaired): the feature is the named one, or it meets the named feature's geometry. -/
+/-- `IntersectsFeature.Matches` (repaired): the named feature has geometry, and the feature is the named one
+or meets the named feature's geometry. -/
 theorem intersects_feature_spec (sameID : Bool) (q : GeoQuery) :
-    intersectsFeatureMatches true sameID q = true ↔ sameID = true ∨ GeoMeets q := by
-  simp only [intersectsFeatureMatches, Bool.or_eq_true]
-  apply or_congr Iff.rfl
+    intersectsFeatureMatches true sameID q = true ↔ q ≠ .empty ∧ (sameID = true ∨ GeoMeets q) := by
   cases q with
-  | point t => exact point_spec t
-  | line t => exact polyline_spec t
-  | empty => simp [geoMatches, GeoMeets]
+  | empty => simp [intersectsFeatureMatches]
+  | point t =>
+    simp only [intersectsFeatureMatches, Bool.or_eq_true, ne_eq, reduceCtorEq, not_false_eq_true, true_and]
+    exact or_congr Iff.rfl (point_spec t)
+  | line t =>
+    simp only [intersectsFeatureMatches, Bool.or_eq_true, ne_eq, reduceCtorEq, not_false_eq_true, true_and]
+    exact or_congr Iff.rfl (polyline_spec t)
   | mp t =>
+    simp only [intersectsFeatureMatches, Bool.or_eq_true, ne_eq, reduceCtorEq, not_false_eq_true, true_and]
+    apply or_congr Iff.rfl
     cases t with
     | point cs => exact multipolygon_point_spec cs
     | path vs => exact multipolygon_path_spec true vs
     | area ms => exact multipolygon_area_spec true ms
     | other => simp [geoMatches, multiPolygonIntersectsFeature, GeoMeets]
 
+/-- Code as found: a relation named by the query "intersects itself" although it has no geometry and the
+compiled query is empty (the search returns nothing: C04's `self-without-geometry`). -/
+theorem intersects_feature_self_counterexample :
+    intersectsFeatureMatches false true .empty = true ∧ intersectsFeatureMatches true true .empty = false := by
+  decide
+
+/-- `MightIntersect.Matches` accepts everything. -/
+theorem might_intersect_spec : mightIntersectMatches = true := rfl
+
 example : intersectsFeatureMatches true false (.mp (.point [false, true])) = true :=
-  (intersects_feature_spec _ _).mpr (Or.inr ⟨true, by simp, rfl⟩)
+  (intersects_feature_spec _ _).mpr ⟨by simp, Or.inr ⟨true, by simp, rfl⟩⟩
 
 end B6.Props.C05
 
@@ -345,6 +359,30 @@ theorem point_eq_spec (t : PointTable) : pointIntersectsFeature t = B6.Spec.Spat
 theorem polyline_eq_spec (t : LineTable) : polylineIntersectsFeature t = B6.Spec.SpatialPred.line t := by
   cases t <;> simp [polylineIntersectsFeature, B6.Spec.SpatialPred.line, someTrue2_eq]
   rfl
+
+/-- `IntersectsPolyline.Matches` (repaired), any query length incl. the empty polyline -/
+theorem polyline_query_eq_spec (nq : Nat) (t : LineTable) :
+    intersectsPolylineMatches true nq t = some (B6.Spec.SpatialPred.lineQuery nq t) := by
+  cases nq <;> cases t <;>
+    simp [intersectsPolylineMatches, B6.Spec.SpatialPred.lineQuery, polyline_eq_spec]
+
+theorem polyline_never_panics (nq : Nat) (t : LineTable) : intersectsPolylineMatches true nq t ≠ none := by
+  rw [polyline_query_eq_spec]; simp
+
+/-- Code as found: an empty query polyline against a point feature panics in `Polyline.Project`. -/
+theorem polyline_empty_query_counterexample :
+    intersectsPolylineMatches false 0 (.point false) = none ∧
+    intersectsPolylineMatches true 0 (.point false) = some false := by
+  decide
+
+/-- with at least one vertex the as-found code is the plain table decision -/
+theorem polyline_query_partial (fixed : Bool) (nq : Nat) (t : LineTable) (h : nq ≠ 0) :
+    intersectsPolylineMatches fixed nq t = some (polylineIntersectsFeature t) := by
+  cases nq with
+  | zero => exact absurd rfl h
+  | succ n => cases t <;> rfl
+
+example : intersectsPolylineMatches false 2 (.point true) = some true := polyline_query_partial _ _ _ (by decide)
 
 theorem multipolygon_eq_spec (t : MpTable) :
     multiPolygonIntersectsFeature true t = B6.Spec.SpatialPred.mp t := by
@@ -382,12 +420,10 @@ theorem cap_eq_spec (t : CapTable)
 
 theorem intersects_feature_eq_spec (sameID : Bool) (q : GeoQuery) :
     intersectsFeatureMatches true sameID q = B6.Spec.SpatialPred.feature sameID q := by
-  simp only [intersectsFeatureMatches, B6.Spec.SpatialPred.feature]
-  congr 1
   cases q with
-  | point t => exact point_eq_spec t
-  | line t => exact polyline_eq_spec t
-  | mp t => exact multipolygon_eq_spec t
   | empty => rfl
+  | point t => simp [intersectsFeatureMatches, B6.Spec.SpatialPred.feature, B6.Spec.SpatialPred.geo, geoMatches, point_eq_spec]
+  | line t => simp [intersectsFeatureMatches, B6.Spec.SpatialPred.feature, B6.Spec.SpatialPred.geo, geoMatches, polyline_eq_spec]
+  | mp t => simp [intersectsFeatureMatches, B6.Spec.SpatialPred.feature, B6.Spec.SpatialPred.geo, geoMatches, multipolygon_eq_spec]
 
 end B6.Props.C05
